@@ -670,6 +670,8 @@ let judge_rate ins outs : verdict =
     | [] -> 0 in
   let eff = if global > 0 && global < bw then global else bw in
   (match outs with
+   | s :: _ :: [hang] when s = "st200" && starts "HANG" hang ->
+       raise (Fail ("write_returns", Printf.sprintf "concurrent connections on one shape: Conn.Write / the context setup did not return within 10 s (round %s): the bytes written are never delivered" (String.sub hang 4 (String.length hang - 4))))
    | s :: _ :: rs when s = "st200" ->
        let maxel = ref 0 and total = ref 0 in
        List.iter (fun r ->
